@@ -256,6 +256,43 @@ func expectedCanon(cc canonCombo, base, input string) (ok bool, obs impl.Full, l
 	return true, impl.ObserveFull(u), list
 }
 
+// expectedCanonModel: the statement's composition computed entirely on the reference model (ok=false where the
+// model has no verdict: parse failure, IDNA delegated to the implementation).
+func expectedCanonModel(cc canonCombo, base, input string) (model.Obs, bool) {
+	cfg := mcfg()
+	retry := func(s string, b *model.URL) (*model.URL, bool) {
+		m, o := cfg.Parse(s, b)
+		if o == model.MissingScheme && cc.Scheme != "" && b == nil {
+			m, o = cfg.Parse(cc.Scheme+"://"+s, nil)
+		}
+		return m, o == model.OK
+	}
+	var m *model.URL
+	var ok bool
+	if base == "" {
+		m, ok = retry(input, nil)
+	} else {
+		var bm *model.URL
+		if bm, ok = retry(base, nil); ok {
+			m, ok = retry(input, bm)
+		}
+	}
+	if !ok || m == nil || cfg.Delegated > 0 {
+		return model.Obs{}, false
+	}
+	if cc.RemovePort {
+		cfg.ApplySetter(m, "port", "")
+	}
+	if cc.RemoveUser {
+		cfg.ApplySetter(m, "username", "")
+		cfg.ApplySetter(m, "password", "")
+	}
+	if cc.RemoveFrag {
+		cfg.ApplySetter(m, "hash", "")
+	}
+	return m.Observe(), true
+}
+
 func blankQuery(f impl.Full) impl.Full {
 	f.Href, f.HrefNoFrag, f.String, f.Search, f.Query = "", "", "", "", ""
 	f.Obs.Href, f.Obs.Search = "", ""
@@ -285,6 +322,15 @@ func c16Canon(cc canonCombo, base, input string) *fw.Finding {
 	if cc.Sort == 0 {
 		if r.obs != obs {
 			return fw.F("c16:canon-result", subj(input, base), "[%s] base=%q input=%q: profile %q, the underlying result with the setters applied %q", name, base, input, r.obs.Href, obs.Href)
+		}
+		// "... by the STANDARD's setter steps": the same composition on the reference model (the implementation's
+		// own setters above would share a defect of the setters with the profile)
+		if len(cc.Under) == 0 {
+			if mobs, mok := expectedCanonModel(cc, base, input); mok {
+				if d := impl.DiffObs(r.obs.Obs, mobs); d != "" {
+					return fw.F("c16:canon-result", subj(input, base), "[%s] base=%q input=%q: profile vs the standard's parser followed by the standard's setter steps: %s", name, base, input, d)
+				}
+			}
 		}
 		return nil
 	}
@@ -610,6 +656,14 @@ func c16Body(c *fw.Ctx) {
 		for _, q := range []string{long, long + long[1:] + "a=x#f", "?b=2&a=1&a=0&c", "?a=%26b&c=%3D", "?a+b=c+d&a%20b=1", "?=&=&&x", "?é=1&e=2&É=3", "?a=2&a=1&b=1&a=3#f", "?%zz=1&%=2"} {
 			for _, pre := range []string{"http://u:p@h:81/p", "foo:o p", "file:///C:/x", "h.test/p", "//h/p"} {
 				f("", pre+q)
+			}
+		}
+		// opaque paths with trailing spaces in front of every combination of present / empty / absent query and
+		// fragment (the standard strips them only when BOTH have become null)
+		for _, q := range []string{"", "?", "?q"} {
+			for _, fr := range []string{"", "#", "#f"} {
+				f("", "data:sp  "+q+fr)
+				f("", "sc:x y  "+q+fr)
 			}
 		}
 		for _, x := range []string{"h.test", "h.test:81/p?q#f", "u:p@h.test/", ":pw@h.test/", "http://:pw@h:81/p?b&a#f", "foo://:pw@h/o", "/p", "?q", "#f", "", "  ", "1.2.3.4/x", "[::1]/x", "é.test/é?é#é", "a b/c d", "c:/x", "localhost:80/"} {
